@@ -2589,6 +2589,9 @@ impl CanonicalizeContext {
 			script.replace_children(new_children);
 			let lifted_base = as_element(mrow_children[i_multiscript]);
 			add_attrs(script, &lifted_base.attributes());
+			if script.attribute_value("id").is_some() && script.attribute_value("id") == base.attribute_value("id") {
+				script.remove_attribute("id");			// 'base' is a child of 'script' and keeps its id -- ids need to be unique
+			}
 			script.remove_attribute("data-split");		// doesn't make sense on mmultiscripts
 			script.remove_attribute("mathvariant");		// doesn't make sense on mmultiscripts
 			mrow_children[i_multiscript] = ChildOfElement::Element(script);
